@@ -279,6 +279,7 @@ func runC08(c *ev.Ctx) {
 	c.Rule("for every list/object-rooted tree t over leaves {nil,1,1.5,\"s\"}, keys {a,b} (also with every list given spare private capacity first, and - for trees with nested containers - reached through 7 other construction routes: lists that are SubList / Concat / NewListOf results, the tree parsed from its own text, a Clone of a Clone, objects that are Merge / Pluck results, equal scalars sharing one field object, nested containers that are user types embedding List/Object): c := t.Clone(); initial check: equal content (model walk + Equals both ways) and no container handle reachable from c is reachable from t; then explicit-state BFS over mutation histories applied at ANY node of t or of c out of 13 list mutations (Add, Insert, Replace, Delete, Pop, Clear, Reverse, Sort, 4 tree-form writes, adding a new nested list) and 9 object mutations (Set, Unset, Clear, 4 tree-form writes, setting a new nested object) - after every mutation both trees are observed completely and must equal the two-heap model (only the mutated node changed).")
 	c.Assume("start trees are enumerated exhaustively up to the stated size; mutation values are fixed representatives (9, a fresh container)")
 	en := spec.NewEnum([]*spec.V{spec.NilV, spec.I(1), spec.F(1.5), spec.S("s")}, []string{"a", "b"})
+	c08Reclone(c, en, phases[0].nodes, phases[0].treeDepth)
 	for _, ph := range phases {
 		if c.Expired() {
 			c.Cut("phase " + ph.name + " not started (deadline)")
